@@ -66,9 +66,12 @@ uintptr_t metatype::generic::addref()
 
 void metatype::generic::unref()
 {
-	if (!_ref.lower()) {
-		delete this;
+	if (_ref.lower()) {
+		return;
 	}
+	// instance and value memory is a single malloc() block (see create)
+	this->~generic();
+	free(this);
 }
 
 metatype::generic *metatype::generic::clone() const
